@@ -325,8 +325,15 @@ def impl_builtin(case):
         if case.get("prior"):
             X0 = wrap(X[::-1] * 2.0 + 1.0)
             det.predict(X0) if case["prior"] == "predict" else det.transform_scores(X0)
-        api_scores = [float(v) for v in np.asarray(det.transform_scores(wrap(X))).reshape(-1)] if case.get("via") == "api" else None
+        held = det.transform_scores(wrap(X)) if case.get("via") == "api" else None
         y = det.predict(wrap(X))
+        held_attr = det.scores
+        if core._bits(case, 40, 2) == 0:
+            # the caller keeps what was returned while ANOTHER instance works on other data of the same length: results handed
+            # out must not be views of buffers that later runs re-use
+            Y = X[::-1] * 2.0 + 1.0
+            type(det)(min_segment_length=m, max_segment_length=M).fit(Y).predict(Y)
+        api_scores = [float(v) for v in np.asarray(held).reshape(-1)] if held is not None else None
         an = [(int(i.left), int(i.right)) for i in y["ilocs"]]
         cuts = np.array([(s, e) for s in range(n) for e in range(s + 1, n + 1)])
         ms = sav.min_size
@@ -335,7 +342,7 @@ def impl_builtin(case):
             if e - s >= ms:
                 vals[f"{s},{e}"] = [float(v) for v in sav.evaluate(np.array([[s, e]]))[0]]
         pvals = [[float(v) for v in psav.evaluate(np.array([[t, t + 1]]))[0]] for t in range(n)]
-        return {"outcome": "ok", "opt": api_scores if api_scores is not None else [float(v) for v in np.asarray(det.scores).reshape(-1)], "anoms": an,
+        return {"outcome": "ok", "opt": api_scores if api_scores is not None else [float(v) for v in np.asarray(held_attr).reshape(-1)], "anoms": an,
                 "ca": ca, "cb": cb, "pa": pa, "pb": pb, "sav": vals, "psav": pvals, "min_size": int(ms)}
     except Exception as ex:
         return {"outcome": "other:" + type(ex).__name__, "msg": str(ex)[:200]}
